@@ -14,6 +14,9 @@ structure Parked where
   spans : List Nat := []
   ffs : List Nat := []
   sd : Bool := false
+  /-- the order in which producers reached their channel send (a blocked sender queue is FIFO in that order):
+  an ordinary `OnEnd` at its call, a parked one when it is released -/
+  sendOrder : List Nat := []
 deriving Repr
 
 /-- internal (non-API, non-exporter-return) labels in priority order; blocked senders first (Go hands a
@@ -26,7 +29,7 @@ def internalOrder (v : Nat) (pk : Parked) (s : St) : List Lbl :=
                            else [.wRecv, .wAppend, .wExportStart, .wStop, .wDrainEmpty]
   let ffStop : List Lbl := s.ffs.reverse.map fun f => .ffStopWins f.fid
   let ffExp : List Lbl := s.ffs.reverse.map fun f => .ffExportStart f.fid
-  ((s.inflight.reverse.filter fun id => !pk.spans.contains id).map .send) ++
+  ((pk.sendOrder.filter fun id => s.inflight.contains id && !pk.spans.contains id).map .send) ++
   -- a ForceFlush blocked on sending its marker is a blocked sender too: it is served as soon as a slot is free,
   -- before the worker looks at the queue again (in the controlled scripts it always arrived after the blocked producers)
   (s.ffs.reverse.flatMap fun f =>
@@ -87,7 +90,7 @@ deriving Repr
 /-- apply an API op: take its first label(s) if enabled; the rest happens in `settle` -/
 def applyOp (ps : Parked × St) : Op → Parked × St
   | .end_ id => match step ps.2 (.accept id) with
-    | some s' => (ps.1, s')
+    | some s' => ({ ps.1 with sendOrder := ps.1.sendOrder ++ [id] }, s')
     | none => ps                     -- stopped (or id reused): OnEnd returns at once
   | .gate ok =>
     match ps.2.busy with
@@ -99,7 +102,10 @@ def applyOp (ps : Parked × St) : Op → Parked × St
   | .parkEnd id => match step ps.2 (.accept id) with
     | some s' => ({ ps.1 with spans := id :: ps.1.spans }, s')
     | none => ps                     -- already stopped: returns before the hook, nothing is parked
-  | .releaseEnd id => ({ ps.1 with spans := ps.1.spans.filter (· != id) }, ps.2)
+  | .releaseEnd id =>
+    if ps.1.spans.contains id then
+      ({ ps.1 with spans := ps.1.spans.filter (· != id), sendOrder := ps.1.sendOrder ++ [id] }, ps.2)
+    else ps
   | .parkFF fid => match step ps.2 (.ffCall fid) with
     | some s' => if s'.stopped then (ps.1, s') else ({ ps.1 with ffs := fid :: ps.1.ffs }, s')
     | none => ps
@@ -138,7 +144,7 @@ theorem applyOp_reachable {cap maxB : Nat} {blocking : Bool} (ps : Parked × St)
     split
     · rename_i s' hs'; exact Reachable.step _ h hs'
     · exact h
-  case releaseEnd id => exact h
+  case releaseEnd id => split <;> exact h
   case parkFF fid =>
     split
     · rename_i s' hs'
